@@ -41,8 +41,9 @@ def budget(tier):
 # ------------------------------------------------------------------------------------------
 
 
-def tag_graph(g, untag=()):
-    """extra S tags BO/NO from the chain oracle; nodes in `untag` get -1/-1."""
+def tag_graph(g, untag=(), no_scale=1, bo_scale=1):
+    """extra S tags BO/NO from the chain oracle; nodes in `untag` get -1/-1. Scaling keeps the order but gives
+    values with different digit counts (9 vs 10 vs 100)."""
     extra = {}
     bo = 0
     for c in g["chroms"]:
@@ -54,7 +55,7 @@ def tag_graph(g, untag=()):
             m = {n: (bo, i + 1) for i, n in enumerate(sorted(c["nodes"]))}
             bo += 1
         for n, (b, o) in m.items():
-            extra[n] = ["BO:i:%d" % b, "NO:i:%d" % o]
+            extra[n] = ["BO:i:%d" % (b * bo_scale), "NO:i:%d" % (o * no_scale)]
     for n in untag:
         extra[n] = ["BO:i:-1", "NO:i:-1"]
     return extra
@@ -65,7 +66,7 @@ def strategy_(draw, tier):
     g = draw(gen_graph.rgfa(max_chroms=2, max_elements=4))
     ids = list(g["nodes"])
     untag = draw(st.lists(st.sampled_from(ids), max_size=max(1, len(ids) // 4), unique=True))
-    extra = tag_graph(g, untag)
+    extra = tag_graph(g, untag, no_scale=draw(st.sampled_from([1, 1, 4, 7])), bo_scale=draw(st.sampled_from([1, 1, 3, 25])))
     lm = models.LinkModel(g["links"])
     pool = draw(st.lists(st.sampled_from(ids), min_size=1, max_size=3, unique=True))
     n = draw(st.integers(2, 14))
@@ -78,6 +79,8 @@ def strategy_(draw, tier):
             total = rec["plen"]
             rec["ps"] = min(draw(st.integers(0, 2)), total - 1)
             rec["pe"] = max(rec["ps"] + 1, min(rec["pe"], total))
+        if draw(st.integers(0, 5)) == 0:
+            rec["strand"] = "-"  # minigraph writes '-' strand records; sort keys are path coordinates, the strand is irrelevant
         lines.append(gen_gaf.record_line(rec))
     perms = []
     if draw(st.integers(0, 9)) < 3:
@@ -87,6 +90,7 @@ def strategy_(draw, tier):
         "gfa": gen_graph.gfa_text(g, with_seq=False, extra_tags=extra),
         "gaf": lines,
         "perms": perms,
+        "via": draw(st.sampled_from(["api", "api", "api", "cli"])),
     }
 
 
@@ -141,13 +145,16 @@ def sort_key(nodes, line):
     return (0, d["BO"], d["NO"], start), side, anchor
 
 
-def run_sort_on(lines, gfa_text):
+def run_sort_on(lines, gfa_text, via="api"):
     from gaftools.cli.sort import run_sort
 
     with core.workdir() as d:
         core.write_text(d + "/g.gfa", gfa_text)
         core.write_text(d + "/in.gaf", "".join(l + "\n" for l in lines))
-        res = core.call(run_sort, d + "/g.gfa", d + "/in.gaf", outgaf=d + "/out.gaf")
+        if via == "cli":
+            res = core.cli(["sort", d + "/in.gaf", d + "/g.gfa", "--outgaf", d + "/out.gaf"])
+        else:
+            res = core.call(run_sort, d + "/g.gfa", d + "/in.gaf", outgaf=d + "/out.gaf")
         try:
             out = core.read_text(d + "/out.gaf").splitlines()
         except OSError:
@@ -176,7 +183,7 @@ def judge(nodes, lines, res, out):
 def run_case(case):
     nodes = parse_tagged_gfa(case["gfa"])
     lines = case["gaf"]
-    res, out = run_sort_on(lines, case["gfa"])
+    res, out = run_sort_on(lines, case["gfa"], via=case.get("via", "api"))
     keys = judge(nodes, lines, res, out)
     for perm in case.get("perms", []):
         pl = [lines[i] for i in perm]
@@ -203,6 +210,10 @@ def run_case(case):
         classes.append("exact_ties")
     if any(s == "rev" for _, s, _ in info):
         classes.append("reverse_anchor")
+    if any(l.split("\t")[4] == "-" for l in lines):
+        classes.append("minus_strand_record")
+    if any(len(k) == 4 and k[2] >= 10 for k in ks):
+        classes.append("NO>=10")
     if case.get("perms"):
         classes.append("with_permutation_reruns")
     nontrivial = len(lines) >= 3 and (desc_no or untag_mixed)
